@@ -96,4 +96,11 @@ CHECKS = {
                 "clean_all() on a fresh copy must not report ERROR. Evidence lists how many inputs changed the tree under each pass and which passes never fired.",
         "note": "a pass whose trigger is not in the alphabets is listed under passes_that_never_changed_a_tree in the evidence.",
     },
+    "C03": {
+        "engine": "input-enum", "category": "model_checking", "design_ref": "DESIGN.md §2 C03",
+        "technique": "bounded-exhaustive enumeration of magic-word/parser-function calls (every registered name and site alias x argument tuples), template universes with every cyclic call graph, and malformed template syntax",
+        "text": SMALL_SCOPE + "every registered function name (MagicResolver attributes, #-functions, dummy resolvers, magic_nodes.registry) and every alias in the 12 bundled sites x argument count 0..2 (quick) / 0..3 (thorough) x 20 shapes x colon/pipe form; "
+                "all universes of 2 (quick) / 3 (thorough) templates over 9 call/parameter items (all call graphs incl. cycles); all strings over a 24-symbol template alphabet up to length 4 / 5. Oracle: str result, no exception, CPU <= 2 s, output <= 64 x input + 4096.",
+        "note": "argument shapes are a fixed list (incl. huge/negative/decimal/exponent numbers, power towers, paths, nested calls).",
+    },
 }
